@@ -47,7 +47,9 @@ func c10Decls() []c10Decl {
 		{"v", func() *gen.VarDecl { return originDecl("account", "v", "meta", gen.Acct("b"), gen.Str("acc")) }},
 		{"e", func() *gen.VarDecl { return originDecl("monetary", "e", "balance", gen.Acct("a"), gen.Asset("EUR")) }},
 		{"w", func() *gen.VarDecl { return &gen.VarDecl{Type: &gen.TypeName{Name: "account"}, Name: gen.V("w")} }},
-		{"mw", func() *gen.VarDecl { return originDecl("monetary", "mw", "overdraft", gen.Acct("world"), gen.Asset("USD")) }},
+		{"mw", func() *gen.VarDecl {
+			return originDecl("monetary", "mw", "overdraft", gen.Acct("world"), gen.Asset("USD"))
+		}},
 		{"bw", func() *gen.VarDecl { return originDecl("monetary", "bw", "overdraft", gen.V("w"), gen.Asset("USD")) }},
 	}
 }
@@ -86,6 +88,10 @@ func c10Ops() []c10Op {
 			return sv(&gen.SentLit{E: gen.Mon(U, "3")}, lst(&gen.SrcAccount{E: v("w")}, sa("a")), da("x"))
 		}}, "w"},
 		c10Op{op{"save1 $w", 0, func() gen.Stmt { return &gen.Save{Sent: &gen.SentLit{E: gen.Mon(U, "1")}, Acct: v("w")} }}, "w"},
+		c10Op{op{"send4 {0% a, 1/3 b, rem x}->y", 0, func() gen.Stmt {
+			return sv(&gen.SentLit{E: gen.Mon(U, "4")}, &gen.SrcAllot{Items: []*gen.SrcAllotItem{
+				{A: gen.Port("0%"), From: sa("a")}, {A: gen.Port("1/3"), From: sa("b")}, {A: &gen.Remaining{}, From: sa("x")}}}, da("y"))
+		}}, ""},
 		c10Op{op{"send $mw world->x", 0, func() gen.Stmt { return sv(&gen.SentLit{E: v("mw")}, sa("world"), da("x")) }}, "mw"},
 		c10Op{op{"send $bw world->x", 0, func() gen.Stmt { return sv(&gen.SentLit{E: v("bw")}, sa("world"), da("x")) }}, "bw"},
 		c10Op{op{"send2 $w od2 ->x", 0, func() gen.Stmt {
@@ -116,7 +122,7 @@ func runC10(w *mc.Worker) {
 	name := "d2-L1"
 	bounds := "<= 2 declarations, 1 statement out of 33; sheets a in {0,1,3,6,-2}, b in {0,2,5}, x=0, a/EUR in {0,3}; meta acc in {a,x}; $w in {a,b,world}; 4 store behaviours"
 	type stage struct {
-		name, bounds   string
+		name, bounds    string
 		maxDecl, maxLen int
 		minLen          int
 	}
@@ -176,7 +182,7 @@ func runC10(w *mc.Worker) {
 					bal := env.Bal{
 						"a": {"USD": a[in.Choose(len(a))], "EUR": aeur[in.Choose(len(aeur))]},
 						"b": {"USD": b[in.Choose(len(b))]},
-						"x": {"USD": bi(0)},
+						"x": {"USD": bi(7)},
 						// the ledger's own view of @world (usually negative): must never be asked for nor matter
 						"world": {"USD": bi(-100)},
 					}
